@@ -22,7 +22,70 @@ ASSUMPTIONS = []
 BUDGET = {"quick": 240, "thorough": 2400}
 
 
+import dataclasses as _dc
+from typing import Any as _Any
+
+from pyoak.node import ASTNode as _ASTNode, NODE_REGISTRY as _REG
+
+
+class _Opaque:
+    """a property value with identity semantics only (no __eq__, no __hash__ override, not copyable by value)"""
+    def __init__(self, n):
+        self.n = n
+
+    def __repr__(self):
+        return f"_Opaque({self.n})"
+
+
+@_dc.dataclass(frozen=True)
+class C14Holder(_ASTNode):
+    key: _Any = None
+    payload: _Any = _dc.field(default=None, compare=False)
+    kid: _ASTNode | None = None
+    kids: tuple[_ASTNode, ...] = ()
+
+
+def opaque_value_cases(rng, n):
+    """property values that are arbitrary objects (annotation Any) with identity equality, comparable and not: a copy holds
+    *equal* values, i.e. for such objects the very same ones; replace() keeps the very same objects in the untouched fields"""
+    import gc
+    for _ in range(n):
+        t, u, w = _Opaque(rng.randrange(100)), _Opaque(rng.randrange(100)), _Opaque(rng.randrange(100))
+        inner = C14Holder(key=(u, 1), payload=[w])            # values nested in a tuple / a (non-comparable) list
+        x = C14Holder(key=t, payload=u, kid=inner, kids=(C14Holder(key=w), C14Holder(payload=t)))
+        d = x.duplicate()
+        fail = None
+        pairs = list(zip([x] + [i.node for i in x.dfs()], [d] + [i.node for i in d.dfs()]))
+        for a, b in pairs:
+            if a is b:
+                fail = "duplicate() returned an original object"
+            elif b.key != a.key or b.payload != a.payload:
+                fail = f"duplicate(): property values differ at {type(a).__name__}(key={a.key!r}, payload={a.payload!r}) vs (key={b.key!r}, payload={b.payload!r})"
+            elif b.content_id != a.content_id or b.origin != a.origin:
+                fail = "duplicate(): content_id / origin differs"
+            elif _REG.get(b.id) is not b:
+                fail = "duplicate(): a copied node is not registered"
+            if fail:
+                break
+        if fail is None and not (d == x):
+            fail = "duplicate() is not == to the original"
+        if fail is None:
+            r = x.replace(payload=w)
+            if r.key is not t or r.kid is not inner or r.kids is not x.kids or r.payload is not w:
+                fail = "replace(): an untouched init field does not hold the very same object / the changed field not the given value"
+            r2 = _dc.replace(r, key=u)
+            if fail is None and (r2.payload is not w or r2.kid is not inner or r2.key is not u):
+                fail = "dataclasses.replace(): an untouched init field does not hold the very same object"
+            del r, r2
+        yield Case("directed:opaque-values", None, None, True,
+                   "Holder(key=<object>, payload=<object>, kid=Holder(key=(<object>, 1), payload=[<object>]), kids=(…)) duplicate / replace",
+                   oracle_fail=fail, sig="copy|directed|opaque-values")
+        del x, d, inner, pairs
+        gc.collect()
+
+
 def cases(rng: random.Random, tier: str):
+    yield from opaque_value_cases(rng, 6 if tier == "quick" else 100)
     n = 120 if tier == "quick" else 3000
     for _ in range(n):
         size = rng.choice([8, 8, 2, 1])
